@@ -203,8 +203,9 @@ func (fs FileServer) serveFile(w http.ResponseWriter, r *http.Request) (int, err
 			continue
 		}
 
+		// a directory of that name is not a compressed version of the file, and
 		// a compressed version that is supposed to be hidden is not served either
-		if fs.IsHidden(encodedFileInfo) {
+		if encodedFileInfo.IsDir() || fs.IsHidden(encodedFileInfo) {
 			encodedFile.Close()
 			continue
 		}
